@@ -254,7 +254,7 @@ ROUTING_KINDS = ["fallback<leaf,leaf>", "fallback<fallback<leaf,leaf>,leaf>", "f
 SIBLING_KINDS = ["pool<node>", "pool<array>", "pool<small>", "coll<node,log2>", "coll<array,identity>", "stack", "iteration<2>", "mixed"]
 FORWARD_KINDS = ["adapter<leaf>", "adapter<leaf-min>", "reference<leaf>", "any_reference<leaf>", "any_reference<leaf-min>", "thread_safe<leaf>",
                  "aligned<leaf>", "aligned<leaf-min>", "tracked<leaf>", "tracked<leaf-min>", "segregator<threshold(64) leaf,leaf>",
-                 "segregator<64,256,leaf>", "memory_resource<leaf>", "memory_resource<leaf-varying-max>", "tracked<aligned<leaf>>",
+                 "segregator<64,256,leaf>", "segregator<by-element-size(64) leaf,leaf>", "memory_resource<leaf>", "memory_resource<leaf-varying-max>", "tracked<aligned<leaf>>",
                  "aligned<tracked<leaf>>", "thread_safe<aligned<leaf-min>>", "segregator<threshold(256) tracked<leaf>,aligned<leaf>>",
                  "tracked<segregator<threshold(64) leaf,leaf>>", "reference<tracked<aligned<leaf>>>",
                  "reference<tracked<stateless-leaf>>",
